@@ -6,6 +6,7 @@ import (
 	"go.opentelemetry.io/collector/component"
 	"go.opentelemetry.io/collector/exporter"
 	"go.opentelemetry.io/collector/exporter/exporterhelper"
+	"go.opentelemetry.io/collector/exporter/exportertest"
 	"go.opentelemetry.io/collector/exporter/exporterhelper/xexporterhelper"
 	"go.opentelemetry.io/collector/pdata/plog"
 	"go.opentelemetry.io/collector/pdata/pmetric"
@@ -77,4 +78,13 @@ func NewExporter(s string, set exporter.Settings, push func(ctx context.Context,
 		panic("xh: unknown signal")
 	}
 	return e, nil
+}
+
+// NopSettings returns exporter settings with a FIXED component id: incarnations
+// of "the same exporter" must agree on it, because a storage extension names a
+// component's storage after its id.
+func NopSettings() exporter.Settings {
+	set := exportertest.NewNopSettings(Type)
+	set.ID = component.MustNewIDWithName(Type.String(), "fixed")
+	return set
 }
